@@ -151,15 +151,17 @@ def handle (j : Json) : Except String Json := do
     let ls ← (← j.getObjVal? "layers").getArr?
     let layers ← ls.toList.mapM layerOfJson
     let abits ← getInt j "activation_bits"
-    match quantizeModel env tn layers with
+    -- `limit` is the USER's dictionary: the model runs the constructor's `_adjust_limit` itself
+    match quantizeModelUser env tn layers with
     | .error e => pure (errJson e)
-    | .ok o =>
+    | .ok (lim, o) =>
       let app := o.arch.map fun L => Json.arr #[Json.str L.name, appliedToJson (applied (alookup L.name o.qdict) L abits)]
       pure <| Json.mkObj [
         ("qdict", Json.mkObj (o.qdict.map fun kv => (kv.1, entryToJson kv.2))),
         ("arch", Json.arr (o.arch.map layerToJson).toArray),
         ("log", Json.arr (o.log.map hpToJson).toArray),
         ("groups", groupsToJson o.groups),
+        ("limit", limitToJson lim),
         ("applied", Json.arr app.toArray)]
   | "delta" =>
     let ref ← getRat j "ref"
